@@ -7,8 +7,11 @@
   of ranges per part and the values of the time bounds (including bounds using the highest usable
   bits).  `fits_st_needs_space`: the hypothesis is necessary — an element with an empty space part is
   fused with the next one (proved counterexample), which is why the library never emits one.
-  Partial: ASCII and JSON ST syntaxes, the FITS header and byte order (C07: `be_roundtrip`) are
-  exercised by direct round trips on real bytes in the correspondence run (test level).
+  Also (session 5): the ST ASCII document at the CHARACTER level (`st_ascii_text_lex`,
+  `st_ascii_text_roundtrip`) and the whole ST FITS file (`fits_st_file_roundtrip`: header cards, flagged rows,
+  padding; file → rows → elements).
+  Partial: the ST JSON reader (serde_json) and the pre-v2 ST FITS reader are exercised by direct round trips
+  and by the model reader on the real (reduced) text.
 -/
 import MocVerif.Model.STCodec
 import MocVerif.Model.STText
